@@ -167,7 +167,7 @@ class Check:
         self.table = load_table()
 
     def runs(self, tier):
-        return 700 if tier == 'quick' else 12000
+        return 640 if tier == 'quick' else 12000
 
     def wall_cap(self, tier):
         return 800 if tier == 'quick' else 6600
@@ -195,26 +195,32 @@ class Check:
     def gen(self, seed, tier):
         rnd = random.Random(f'C05/{seed}')
         cells = list(self.cells())
-        limit = 6000 if tier == 'quick' else MAX_N
+        limit = 3500 if tier == 'quick' else MAX_N
         for _ in range(200):
             kind, vi, e0, dt = rnd.choice(cells)
             ent = (self.table or {}).get(table_key(kind, vi, e0, dt))
             if ent is None:
                 continue
-            if ent.get('status') == 'slow':
+            if ent.get('status') == 'slow' and kind != 'ukf':
                 continue        # converges, but needs more samples than the calibration cap: not exercised
             if ent.get('status') != 'ok':
                 # cells where the filter breaks down on the repaired tree: keep exercising them (known findings)
                 if rnd.random() < 0.15:
                     return self.make_scenario(rnd, kind, vi, e0, dt)
                 continue
-            if self.budget(ent) + 200 <= limit:
+            if self.budget(kind, vi, e0, dt) + 200 <= limit:
                 return self.make_scenario(rnd, kind, vi, e0, dt)
         raise RuntimeError('no admissible cell (is c05_table.json present?)')
 
-    @staticmethod
-    def budget(ent):
-        return 3 * int(ent['settle']) + 300
+    def budget(self, kind, vi, e0, dt):
+        """Samples allowed to settle: 3x the largest pinned settle index of this configuration for any initial
+        error up to e0, plus half the largest of the whole row (the pinned values come from 16 seeds per cell and
+        are not monotone in e0 for every filter), plus 300."""
+        row = [(e, (self.table or {}).get(table_key(kind, vi, e, dt))) for e in E0S]
+        ok = [(e, int(t['settle'])) for e, t in row if t is not None and t.get('status') == 'ok']
+        upto = max([s for e, s in ok if e <= e0], default=0)
+        whole = max([s for e, s in ok], default=0)
+        return 3 * upto + whole // 2 + 300
 
     # ------------------------------------------------------------------
     def run(self, scn):
@@ -236,7 +242,7 @@ class Check:
 
         tol = tol_for(scn['kind'], scn['params'], scn['dt'])
         if ent.get('status') == 'ok':
-            budget = self.budget(ent)
+            budget = self.budget(scn['kind'], scn['variant'], scn['e0_deg'], scn['dt'])
             n = scn.get('n') or budget + 200
         else:
             budget = None
@@ -256,7 +262,7 @@ class Check:
             elif s_idx > budget:
                 where = 'never within the run' if s_idx >= n else f'only from sample {s_idx}'
                 viol.append(v('no-convergence' if s_idx >= n else 'slow-convergence', min(s_idx, n - 1),
-                              f'error settles below {tol:.3g} rad {where}; budget {budget} samples (3x the pinned {ent["settle"]}); '
+                              f'error settles below {tol:.3g} rad {where}; budget {budget} samples (pinned settle index {ent["settle"]}); '
                               f'initial error {e_init:.4g} rad, final {errs[-1]:.4g} rad; variant {scn["params"]}, dt={scn["dt"]}'))
             if not errs[-1] <= max(e_init, tol) + 1e-9:
                 viol.append(v('final-worse-than-initial', n - 1, f'final error {errs[-1]:.4g} rad exceeds the initial error {e_init:.4g} rad'))
